@@ -39,6 +39,11 @@ def tok_classifier(pkey, nontrivial_rule):
         if flags.get(pkey) == "0":
             info["prop_fail"] = pkey + "-predicate"
             info["why"] = f"property predicate {pkey} is false on the implementation's output"
+        elif pkey == "C02" and flags.get("C02S") == "0":
+            info["prop_fail"] = "dead-end-boundary-after-skipped-spaces"
+            info["why"] = ("a strictly cheaper sequence of candidate words exists that passes through a boundary the lattice loop never "
+                           "uses as a start node (a word ending inside / right after a run of skipped spaces)")
+            tags.append("specmin=differs")
         elif "panic" in impl.split() and pkey in ("C01",) and "panic" not in mobs.split():
             info["prop_fail"] = "panic"
             info["why"] = "the implementation panicked where the model returns a value"
@@ -801,8 +806,13 @@ PROPS = {
         "assumptions": ["the tokenizer is immutable while workers exist (checked at compile time: Tokenizer/Dictionary are Send+Sync; source audit for interior mutability)"],
     },
     "C02": {
-        "modules": ["Vibrato.Props.C02"],
-        "theorems": ["Vibrato.viterbi_optimal", "Vibrato.total_cost_prefix"],
+        "modules": ["Vibrato.Props.C02", "Vibrato.Props.C02cap"],
+        "theorems": ["Vibrato.viterbi_optimal", "Vibrato.total_cost_prefix",
+                     "Vibrato.reported_is_candidate_segmentation", "Vibrato.optimal_among_live_segmentations",
+                     "Vibrato.final_boundary_unique", "Vibrato.optimal_among_candidate_segmentations",
+                     "Vibrato.all_boundaries_live", "Vibrato.optimal_no_skip", "Vibrato.tokenize_min_cost",
+                     "Vibrato.tokenize_min_cost_no_ignore", "Vibrato.tokenize_min_cost_ignore_space",
+                     "Vibrato.tokenize_min_cost_live", "Vibrato.dead_end_cheaper"],
         "streams": tok_streams("c01", 600, 20000, tok_classifier("C02", lattice_paths_ge2)),
         "rule": "random dictionaries (matrix connector) x sentences x options; non-trivial = the lattice dump "
                 "has a boundary with >= 2 nodes (a real choice); distinct = sha1 of the case input",
